@@ -34,6 +34,7 @@ type Job struct {
 	MapOrder     bool              `json:"map_order"`
 	GoInline     bool              `json:"go_inline"`
 	MaxViol      int               `json:"max_viol"`
+	NSamples     int               `json:"nsamples"`
 	Vectors      [][]int64         `json:"vectors,omitempty"` // concrete mode
 
 	fn      *ssa.Function
@@ -77,6 +78,7 @@ type JobResult struct {
 	Unwinds    map[string]int         `json:"unwind_exceeded,omitempty"`
 	DeclAsserts []string              `json:"declared_asserts,omitempty"`
 	DeclReach  []string               `json:"declared_reach,omitempty"`
+	Nontrivial int                    `json:"nontrivial_paths"`
 }
 
 type PathSample struct {
@@ -267,6 +269,9 @@ func (w *Worker) runItem(it workItem, q *queue) {
 		w.ensureInit(job.fn.Pkg)
 		w.call(&FuncV{fn: job.fn}, nil, nil)
 		w.flush()
+		if !it.conc && !w.modelOK && w.wantSample() {
+			w.ensureModel()
+		}
 	}()
 	var sampleVec []int64
 	var sampleKinds []string
@@ -322,7 +327,14 @@ func (w *Worker) runItem(it workItem, q *queue) {
 			job.stopped = true
 		}
 	}
-	if len(job.res.Samples) < 3 && (end == "done") && !it.conc {
+	if end == "done" && !it.conc && (w.st.oblQ > 0 || w.st.feasQ > 0) {
+		job.res.Nontrivial++
+	}
+	nsmp := job.NSamples
+	if nsmp == 0 {
+		nsmp = 3
+	}
+	if len(job.res.Samples) < nsmp && end == "done" && !it.conc && sampleVec != nil && (len(job.res.Samples) < 2 || traceHash(w.trace)%5 == 0) {
 		job.res.Samples = append(job.res.Samples, PathSample{Trace: traceStr(w.trace), PCSize: len(w.pc), Vector: sampleVec, Kinds: sampleKinds, End: end})
 	}
 	job.stats.add(&w.st)
@@ -331,6 +343,25 @@ func (w *Worker) runItem(it workItem, q *queue) {
 			q.push(workItem{job: job, prefix: p})
 		}
 	}
+}
+
+func (w *Worker) wantSample() bool {
+	n := w.job.NSamples
+	if n == 0 {
+		n = 3
+	}
+	w.job.mu.Lock()
+	defer w.job.mu.Unlock()
+	return len(w.job.res.Samples) < n
+}
+
+func traceHash(t []dec) uint32 {
+	h := uint32(2166136261)
+	for _, d := range t {
+		h = (h ^ uint32(d.K)) * 16777619
+		h = (h ^ uint32(d.V)) * 16777619
+	}
+	return h >> 7
 }
 
 func traceStr(t []dec) string {
